@@ -2,6 +2,8 @@ import WM.Proto
 import WM.Model.Normalize
 import WM.Model.NormalizeExc
 import WM.Model.NormalizeReader
+import WM.Model.NormalizeDedupe
+import WM.Model.NormalizeNested
 import WM.Spec.Sat
 import WM.Spec.Clean
 import WM.Spec.CleanS
@@ -231,6 +233,31 @@ def handle : List SExp → String
       | "sub" => showExc (opSubE a b)
       | _ => "bad-op"
     | _, _ => "bad-op"
+  | [.atom "dedupeby", n, pairs] =>
+    -- clauses 0..n-1, `pairs` = the (i j) for which clause i answers "already seen" against clause j
+    let pair? : SExp → Option (Nat × Nat) := fun e =>
+      match e with
+      | .list [i, j] => do some ((← i.nat?), (← j.nat?))
+      | _ => none
+    match n.nat?, pairs.listOf? pair? with
+    | some n, some ps =>
+      showNatList (WM.NormalizeDedupe.dedupeBy (WM.NormalizeDedupe.tableEqv ps) [] (List.range n))
+    | _, _ => "bad-op"
+  | [.atom "nparentnorm", p, c] =>
+    -- NestedParent(p, c).normalize(): `null` or the two normalized sub-queries
+    match q? p, q? c with
+    | some p, some c =>
+      match (WM.NormalizeNested.NParent.mk p c none 0).normalize with
+      | none => "null"
+      | some m => "(" ++ showQ m.parents ++ " " ++ showQ m.child ++ ")"
+    | _, _ => "bad-op"
+  | [.atom "nparentanswer", e, lens, p, c] =>
+    -- documents NestedParent(p, c) returns on the index of `e` cut into segments of the given sizes
+    match env? e, lens.natList?, q? p, q? c with
+    | some env, some lens, some p, some c =>
+      showNatList (WM.NormalizeNested.parentAnswer env (WM.NormalizeNested.splitSegs lens env.index)
+        (WM.NormalizeNested.NParent.mk p c none 0))
+    | _, _, _, _ => "bad-op"
   | [.atom "overlaps", a, b] =>
     match (q? a).bind Q.asRange, (q? b).bind Q.asRange with
     | some a, some b => showBool (a.overlaps b)
